@@ -7,10 +7,10 @@ import GmQuic.Gen.QSpans
 
 * `de_ser_roundtrip`: for EVERY schema of the serde-derive model and every value of its type, `de (ser v) = v`
   provided the schema is well formed (`wf`, decidable) — "parses back to an equal event";
-* `qevent_schemas_wf_except_known`: `wf` of the schema GENERATED from the current qevent source for every covered
-  derived type, except the types listed in `knownSkipNoDefault` (finding `roundtrip:skip-without-default`);
-* `qevent_untagged_unambiguous_except_known`: all `#[serde(untagged)]` alternatives have disjoint shapes except in
-  the listed types (there the round trip holds for canonical values only — `hasType` says which);
+* `qevent_schemas_wf`: `wf` of the schema GENERATED from the current qevent source for EVERY covered derived type, hence
+  `qevent_roundtrip` / `event_roundtrip` at full strength;
+* `qevent_untagged_unambiguous_except_known`: no `#[serde(untagged)]` alternative can accept what a later one writes, except
+  in the six listed enum nodes (there the round trip holds for canonical values only — `hasType` says which);
 * `envelope_has_mandatory_fields`: every serialised `Event` is an object with `time` (number), `name` (string),
   `data` (object);
 * `emit_no_panic_iff_context`, `emit_without_context_never_panics`, `emit_never_panics_under_repo_spans`,
@@ -62,51 +62,48 @@ example : wfDisjoint (.cons "ApplicationError" .req .str (.cons "Value" .req (.i
 
 /-! ## the schemas generated from qevent/src/** -/
 
-/-- covered types whose generated schema is NOT well formed in the unfixed tree: a `Vec` field with
-`skip_serializing_if = "Vec::is_empty"` but no `default` (and the types that contain one).
-Empty after `repo_patches/fix-C20-skip-default.diff` is applied (then delete the entries). -/
-def knownSkipNoDefault : List String :=
-  ["quic::transport::VersionInformation", "quic::transport::PacketSent", "quic::transport::PacketReceived",
-   "quic::transport::PacketsAcked", "quic::transport::UdpDatagramsSent", "quic::transport::UdpDatagramsReceived",
-   "EventData", "Event", "legacy::quic::TransportPacketReceived", "legacy::quic::TransportPacketSent",
-   "legacy::quic::TransportVersionInformation"]
+/-- EVERY covered derived type of qevent has a well-formed schema (no key collision incl. through flatten, every
+`skip_serializing_if` paired with `default`, `Option` never around a nullable type, tags distinct from field names …).
+Regenerated from the source on every run: re-introducing e.g. `skip_serializing_if` without `default` makes this false. -/
+theorem qevent_schemas_wf : (covered.all fun p => wf p.2) = true := by decide +kernel
 
-theorem qevent_schemas_wf_except_known :
-    (covered.all fun p => knownSkipNoDefault.contains p.1 || wf p.2) = true := by decide +kernel
-
-/-- covered types that contain an untagged enum with overlapping alternatives (round trip for canonical values only) -/
-def knownAmbiguous : List String :=
-  ["quic::connectivity::ConnectionCode", "quic::connectivity::ConnectionClosed", "quic::connectivity::ConnectionState",
-   "quic::connectivity::ConnectionStateUpdated", "quic::ConnectionCloseErrorCode", "quic::QuicFrame",
-   "quic::transport::StreamState", "quic::transport::StreamStateUpdated", "quic::transport::FramesProcessed",
-   "quic::recovery::PacketLost", "quic::recovery::MarkedForRetransmit", "TimeClockType", "TimeEpoch",
-   "legacy::quic::ConnectionCloseErrorCode", "legacy::quic::QuicFrame", "legacy::quic::RecoveryMarkedForRetransmit",
-   "legacy::quic::RecoveryPacketLost", "legacy::quic::TransportFramesProcessed",
-   "quic::transport::PacketSent", "quic::transport::PacketReceived", "EventData", "Event",
-   "legacy::quic::TransportPacketReceived", "legacy::quic::TransportPacketSent"]
+/-- The only `#[serde(untagged)]` nodes in which an earlier alternative can accept what a later one writes — identified by
+`untaggedKey` = alternative names ++ unit-variant names of the first alternative — are the confirmed findings
+`roundtrip:untagged-ambiguous:*`: TimeClockType, TimeEpoch, ConnectionState, ConnectionCloseErrorCode (quic and legacy),
+legacy StreamDataLocation.  For every other untagged enum of the table (ApplicationCode, ConnectionCode, StreamState,
+ConnectionCloseTriggerFrameType, Traces, …) every value is canonical. -/
+def knownAmbiguousEnums : List (List String) :=
+  [["", "Custom", "system", "monotaonic"],
+   ["", "RFC3339DateTime", "Unknow"],
+   ["Base", "Granular", "attempted", "handshake_started", "handshake_complete", "closed"],
+   ["TransportError", "CryptoError", "ApplicationError", "Value", "no_error", "internal_error", "connection_refused",
+    "flow_control_error", "stream_limit_error", "stream_state_error", "final_size_error", "frame_encoding_error",
+    "transport_parameter_error", "connection_id_limit_error", "protocol_violation", "invalid_token", "application_error",
+    "crypto_buffer_exceeded", "key_update_error", "aead_limit_reached", "no_viable_path"],
+   ["TransportError", "ApplicationError", "Value", "NoError", "InternalError", "ConnectionRefused", "FlowControlError",
+    "StreamLimitError", "StreamStateError", "FinalSizeError", "FrameEncodingError", "TransportParameterError",
+    "ConnectionIdLimitError", "ProtocolViolation", "InvalidToken", "ApplicationError", "CryptoBufferExceeded",
+    "KeyUpdateError", "AeadLimitReached", "NoViablePath"],
+   ["", "Other", "user", "application", "transport", "network"]]
 
 theorem qevent_untagged_unambiguous_except_known :
-    (covered.all fun p => knownAmbiguous.contains p.1 || strict p.2) = true := by decide +kernel
+    (covered.all fun p => fineEx knownAmbiguousEnums p.2) = true := by decide +kernel
 
-/-- covered types that contain an untagged enum two of whose alternatives can really accept a common value (a unit-variant
-name shared with / matched by another alternative, or a catch-all string): exactly the confirmed findings
-`roundtrip:untagged-ambiguous:*` (ConnectionState, ConnectionCloseErrorCode, TimeClockType, TimeEpoch) and what contains them. -/
-def knownOverlapping : List String :=
-  ["quic::connectivity::ConnectionState", "quic::connectivity::ConnectionStateUpdated", "quic::ConnectionCloseErrorCode",
-   "quic::QuicFrame", "quic::transport::FramesProcessed", "quic::recovery::PacketLost", "quic::recovery::MarkedForRetransmit",
-   "TimeClockType", "TimeEpoch", "legacy::quic::ConnectionCloseErrorCode", "legacy::quic::QuicFrame",
-   "legacy::quic::RecoveryMarkedForRetransmit", "legacy::quic::RecoveryPacketLost", "legacy::quic::TransportFramesProcessed",
-   "quic::transport::PacketSent", "quic::transport::PacketReceived", "EventData", "Event",
-   "legacy::quic::TransportPacketReceived", "legacy::quic::TransportPacketSent"]
+/-- every covered qevent type round-trips: all values of the type (`hasType`: in range, custom keys not reserved, canonical on
+the ambiguous untagged enums, validation of `ReferenceTime` satisfied) -/
+theorem qevent_roundtrip (name : String) (s : Schema) (hc : (name, s) ∈ covered)
+    (v : Val) (ht : hasType s v = true) : de s (ser s v) = some v := by
+  have h := qevent_schemas_wf
+  rw [List.all_eq_true] at h
+  exact de_ser s v (h (name, s) hc) ht
 
-theorem qevent_untagged_languages_disjoint_except_known :
-    (covered.all fun p => knownOverlapping.contains p.1 || fine p.2) = true := by decide +kernel
+/-- in particular every event envelope, whatever the payload -/
+theorem event_roundtrip (v : Val) (ht : hasType eventSchema v = true) :
+    de eventSchema (ser eventSchema v) = some v :=
+  de_ser eventSchema v (by decide +kernel) ht
 
-/-- every covered qevent type whose schema is well formed round-trips (all values of the type, canonical on untagged) -/
-theorem qevent_roundtrip_partial (name : String) (s : Schema) (_hc : (name, s) ∈ covered) (hw : wf s = true)
-    (v : Val) (ht : hasType s v = true) : de s (ser s v) = some v := de_ser s v hw ht
-
-example : wf T_quic_transport_StreamDataMoved = true := by decide +kernel
+example : hasType eventSchema (.rcd [.flt "1.5", .var 0 (.rcd [.some (.str "127.0.0.1"), .none, .some (.int 443), .none, .none] []),
+    .some (.str "p"), .none, .none, .some (.str "abcd"), .none] [("foo", .int 1)]) = true := by decide +kernel
 
 /-! ## envelope -/
 
